@@ -128,6 +128,16 @@ def rsa_cases(rng, quick):
       if gmpy2.is_prime(q):
         break
     out.append(('almostvariant%d' % i, p * q, b'\x01\x00\x01', None))
+  # quadratic non-residue at exactly TWO of the 48 primes (a product-of-primes / Jacobi-symbol shortcut would accept these)
+  for (j1, j2) in ([(0, 1), (8, 15), (40, 47), (3, 30)] if quick else [(0, 1), (2, 7), (8, 15), (9, 10), (16, 23), (24, 31), (32, 39), (40, 47), (3, 30), (5, 44)]):
+    res = []
+    for i, pp in enumerate(VAR_P):
+      sq = sorted(set(x * x % pp for x in range(1, pp)))
+      non = [x for x in range(1, pp) if x not in sq]
+      res.append(rng.choice(non) if i in (j1, j2) else rng.choice(sq))
+    x, m = crt(res, VAR_P)
+    n = x + m * (rng.getrandbits(2048 - m.bit_length()) | (1 << (2047 - m.bit_length())))
+    out.append(('twononres-%d-%d' % (VAR_P[j1], VAR_P[j2]), n, b'\x01\x00\x01', None))
   for sm in (5, 229):
     out.append(('multiple-of-%d' % sm, sm * art.rand_prime_top2(rng, 2040), b'\x01\x00\x01', None))
   for i in range(3 if quick else 30):
